@@ -228,7 +228,13 @@ def inline_new_helpers(mod, pinned):
             if host is not None:
                 if id(host) not in host_names:
                     host_names[id(host)] = _assigned_names(host) | set(alpha._params(host))
-                if (hlocals - identity) & host_names[id(host)]:
+                # 'x = helper(...)' where the helper has a local x of its own: the host's x is dead at the call (no argument reads it, checked above)
+                # and is assigned by the statement anyway, so the helper's x may live in it (unless a handler of the host could observe it half-way)
+                own_target = set()
+                if isinstance(st, ast.Assign) and st.value is call and len(st.targets) == 1 and isinstance(st.targets[0], ast.Name) \
+                        and not any(isinstance(a, ast.Try) for a in _ancestors(st) if not isinstance(a, ast.Module)):
+                    own_target.add(st.targets[0].id)
+                if (hlocals - identity - own_target) & host_names[id(host)]:
                     continue      # name capture: leave alone
             pre_assign = []
             for p_ in rebound:
@@ -284,7 +290,10 @@ def inline_new_helpers(mod, pinned):
                 else:
                     st.value = val
                 _place(pre + [val], st)
-                lst[i:i] = pre
+                if isinstance(st, ast.Assign) and len(st.targets) == 1 and isinstance(st.targets[0], ast.Name) and isinstance(val, ast.Name) and val.id == st.targets[0].id:
+                    lst[i:i + 1] = pre or [ast.copy_location(ast.Pass(), st)]          # x = x
+                else:
+                    lst[i:i] = pre
                 changed = True
                 count += 1
                 break
